@@ -164,8 +164,8 @@ def run(ctx, rep):
     rep.check("C20.rel", "first index of a track gets offset 0 and defines the track offset; later ones subtract it", len(subs) == 1 and len(dflt) >= 1, loc_of(b))
     db = [x for x in F.bodies if x.promoted is None and "DisplayCuesheet" in x.path and x.path.endswith("::fmt") and "Timestamp" not in x.path]
     for x in db[:1]:
-        adds = [t for _, t in x.calls() if re.search(r"<impl u64>::saturating_add$", callee_name(t))]
-        good = len(adds) == 2 and all({"offset"} <= backward_slice(x, t["a"][0])["fields"] and {"offset"} <= backward_slice(x, t["a"][1])["fields"] for t in adds)
+        adds = [(c, t) for c in [x] + F.closures_of(x) for _, t in c.calls() if re.search(r"<impl u64>::saturating_add$", callee_name(t))]
+        good = len(adds) == 2 and all({"offset"} <= slice_with_captures(F, c, t["a"][0])["fields"] and {"offset"} <= slice_with_captures(F, c, t["a"][1])["fields"] for c, t in adds)
         rep.check("C20.rel", "text rendering prints index offset + track offset (both layouts)", good, loc_of(x), "", "rendering no longer adds the track offset to the relative index offset")
     if not db:
         rep.bad("C20.rel", "anchor:DisplayCuesheet::fmt", "", "not found")
